@@ -72,27 +72,74 @@ Lemma worker_drop_failure_lost_refuted_l : exists st, exec (wc_mp nof) pinit tr_
   phase (ws st 5) = WCrashed /\ failed (o st) = [] /\ flight st = [].
 Proof. eexists. split; [vm_compute; reflexivity|]. vm_compute. repeat split. Qed.
 
-(* ---- crash point CPoll: NO fault anywhere (oracle = no step fails, no crash label), yet the run raises: a DROP_COMPLETE
-        that arrives after wait_for_drop_completion timed out is taken by poll_result_queues (known finding
-        C06-mp-stale-drop-complete).  Steps 0 and 1 share worker 5, step 2 runs on worker 6. ---- *)
+(* ---- the late DROP_COMPLETE (finding C06-mp-stale-drop-complete, repaired by 10693fe).  NO fault anywhere (oracle = no step
+        fails, no crash label): a DROP_COMPLETE that arrives after wait_for_drop_completion timed out is taken by
+        poll_result_queues.  Steps 0 and 1 share worker 5, step 2 runs on worker 6. ---- *)
 Definition wp3 : plan := [fg 0 [1] [] true; fg 1 [2] [] true; fg 2 [3] [] true].
 Definition wc_stale : cfg :=
   {| cplan := wp3; mp := true; cstream := false; wof := fun s => if Nat.ltb s 2 then 5 else 6; wdrop := fun s => if Nat.ltb s 2 then 5 else 6;
      children := fun w => if Nat.eqb w 5 then [1; 2; 9] else [3]; wfail := nof |}.
-Definition tr_stale : list label :=
+(* up to and including the poll that takes the stale acknowledgement *)
+Definition tr_stale_prefix : list label :=
   [OHead; OExec true; OExec true; OExec true; OEndScan; WTake 5; WDone 5; WTake 6;
    OHead; OPoll [(5, RDone 0)]; OCollect true; OTimeout 5; OPoll []; OVisit; OPoll []; OVisit; OEndScan;
    WTake 5; WDone 5; WTake 5; WDropAck 5 false false;
    OHead; OVisit; OPoll [(5, RDone 1)]; OCollect true; OGot 5; OPoll []; OVisit; OEndScan;
    WTake 5; WDropAck 5 false false;
-   OHead; OVisit; OVisit; OPoll [(5, RDropComplete)];
-   OArtifacts true; OTerminate 5; OJoin 5; OTerminate 6; OJoin 6; OClose; ODropAll true].
-Lemma stale_drop_complete_refuted_l : exists st, exec wc_stale pinit tr_stale = Some st /\ pc st = PExited XRaisedBody /\
+   OHead; OVisit; OVisit; OPoll [(5, RDropComplete)]].
+(* PRE-10693fe behaviour (Model/Worker.v step_old = the code before the repair): UUID(tuple) raises inside the poll, the run
+   goes to the finally block and raises although nothing failed.  This history is the regression input of the harness. *)
+Definition tr_stale : list label :=
+  tr_stale_prefix ++ [OArtifacts true; OTerminate 5; OJoin 5; OTerminate 6; OJoin 6; OClose; ODropAll true].
+Lemma stale_drop_complete_old_refuted_l : exists st, exec_old wc_stale pinit tr_stale = Some st /\ pc st = PExited XRaisedBody /\
   failed (o st) = [] /\ replies st = [(1, true); (0, true)] /\ phase (ws st 6) = WKilled.
+Proof. eexists. split; [vm_compute; reflexivity|]. vm_compute. repeat split. Qed.
+(* the repaired code does not behave like that any more: the old history is not a trace of the model ... *)
+Lemma stale_old_history_rejected_l : exec wc_stale pinit tr_stale = None /\ first_bad wc_stale pinit tr_stale 0 = Some (List.length tr_stale_prefix).
+Proof. vm_compute. split; reflexivity. Qed.
+(* ... the poll consumes the acknowledgement and the run completes: the third step is collected, normal exit, 3 results *)
+Definition tr_stale_fixed : list label :=
+  tr_stale_prefix ++ [OVisit; OEndScan; WUpload 6; WDone 6;
+   OHead; OVisit; OVisit; OPoll [(6, RDone 2)]; OCollect true; WTake 6; WDropAck 6 true true; OGot 6; OEndScan;
+   OHead; OArtifacts true; OTerminate 5; OJoin 5; OTerminate 6; OJoin 6; OClose; ODropAll true].
+Lemma stale_drop_complete_fixed_l : exists st, exec wc_stale pinit tr_stale_fixed = Some st /\ pc st = PExited XNormal /\
+  failed (o st) = [] /\ replies st = [(2, true); (1, true); (0, true)] /\ results (o st) = [2; 1; 0] /\ flight st = [] /\
+  resq (ws st 5) = [] /\ phase (ws st 5) = WKilled /\ phase (ws st 6) = WExited.
+Proof. eexists. split; [vm_compute; reflexivity|]. vm_compute. repeat split. Qed.
+Lemma stale_fixed_fault_free_l : fault_free tr_stale_fixed.
+Proof. intros l H. vm_compute in H. repeat (destruct H as [<-|H]; [reflexivity|]). destruct H. Qed.
+
+(* ---- crash point CSend (d86b7a0): the second step cannot be pickled: send_command raises after the first worker was
+        started; the run raises, the worker (still holding the first command) is terminated and joined ---- *)
+Definition tr_sendfail : list label := [OHead; OExec true; OSendFail; OArtifacts true; OTerminate 5; OJoin 5; OClose; ODropAll true].
+Lemma ex_sendfail_l : exists st, exec (wc_mp nof) pinit tr_sendfail = Some st /\ pc st = PExited XRaisedBody /\
+  sent st = [(5, 0)] /\ phase (ws st 5) = WKilled /\ joined (ws st 5) = true /\ running (o st) = [2; 1].
+Proof. eexists. split; [vm_compute; reflexivity|]. vm_compute. repeat split. Qed.
+(* ... and when it is the first command for its object: the worker process exists although nothing was ever sent to it *)
+Definition tr_sendfail_new : list label := [OHead; OSendFail; OArtifacts true; OTerminate 5; OJoin 5; OClose; ODropAll true].
+Lemma ex_sendfail_new_l : exists st, exec (wc_mp nof) pinit tr_sendfail_new = Some st /\ pc st = PExited XRaisedBody /\
+  sent st = [] /\ tasks st = [5] /\ phase (ws st 5) = WKilled /\ joined (ws st 5) = true.
 Proof. eexists. split; [vm_compute; reflexivity|]. vm_compute. repeat split. Qed.
 
 Lemma wp3_ok : plan_ok wp3 /\ NoDup (map sid wp3).
 Proof. apply (wf_plan_ok (topo_order wp3)). vm_compute. reflexivity. Qed.
+
+(* ---- a stream closed in the middle of a drain: both steps are collected in one scan, the consumer takes the first item
+        (the most recently collected: dict.popitem) and closes the generator: the other result is never delivered; clean-up as
+        on every exit ---- *)
+Definition wc_thr_stream : cfg :=
+  {| cplan := wp2; mp := false; cstream := true; wof := fun _ => 0; wdrop := fun _ => 0; children := fun _ => []; wfail := nof |}.
+Definition tr_partial_prefix : list label :=
+  [OHead; OExec true; OExec true; OEndScan; WDone 0; WDone 1; OHead; OPoll []; OCollect true; OPoll []; OCollect true; OEndScan].
+Definition tr_partial_abandon : list label := tr_partial_prefix ++ [OAbandon; OArtifacts true; OJoin 0; OJoin 1; OClose; ODropAll true].
+Lemma ex_partial_abandon_l : exists st, exec wc_thr_stream pinit tr_partial_abandon = Some st /\ pc st = PExited XAbandon /\
+  yielded (o st) = [1; 0] /\ undelivered st = [0] /\ joined (ws st 0) = true /\ joined (ws st 1) = true.
+Proof. eexists. split; [vm_compute; reflexivity|]. vm_compute. repeat split. Qed.
+(* the same run consumed to the end: second item, then the loop head finds everything finished *)
+Definition tr_partial_full : list label := tr_partial_prefix ++ [ONext; OResume; OHead; OArtifacts true; OJoin 0; OJoin 1; OClose; ODropAll true].
+Lemma ex_partial_full_l : exists st, exec wc_thr_stream pinit tr_partial_full = Some st /\ pc st = PExited XNormal /\
+  yielded (o st) = [1; 0] /\ undelivered st = [].
+Proof. eexists. split; [vm_compute; reflexivity|]. vm_compute. repeat split. Qed.
 
 (* the projection of the fault-free run onto Orch.v events, and its outcome *)
 Lemma ex_projection_l : fst (proj (wc_mp nof) pinit tr_mp_ok ([], [])) = [EScan; EDone 0 true; EDone 1 true; EScan] /\
